@@ -63,11 +63,6 @@ func documents() {
 		var ks []int
 		for j := 0; j < n; j++ {
 			ki := e.Rand.IntN(len(kinds))
-			for kinds[ki].parentCMap {
-				// these only appear alone on a page: every failure of their document is
-				// attributed to the known finding about CMaps with a parent
-				ki = e.Rand.IntN(len(kinds))
-			}
 			ks = append(ks, ki)
 		}
 		if e.Rand.IntN(5) == 0 {
